@@ -19,7 +19,7 @@ def one(name):
             r = subprocess.run(f"patch -s -p1 < {os.path.join(d, 'patch.diff')}", shell=True, cwd=tmp, capture_output=True, text=True)
             if r.returncode != 0:
                 return name, prop, None, "patch does not apply to the current tree"
-        env = dict(os.environ, VALIDA_SRC=tmp, PYVC_FUNCTION_BUDGET_S="60")
+        env = dict(os.environ, VALIDA_SRC=tmp, PYVC_FUNCTION_BUDGET_S="150")
         out = subprocess.run([os.path.join(HERE, "check"), prop], cwd=HERE, env=env, capture_output=True, text=True, timeout=1500)
         reps = [l.split("replay=")[1].split()[0] for l in out.stdout.splitlines() if l.startswith("VIOLATION")]
         obl, bnd = [], []
@@ -38,7 +38,7 @@ def one(name):
         shutil.rmtree(tmp, ignore_errors=True)
 
 rows = []
-with cf.ThreadPoolExecutor(3) as ex:
+with cf.ThreadPoolExecutor(2) as ex:
     for name, prop, det, err in ex.map(one, names):
         mp = os.path.join(HERE, "seeded", name, "meta.json")
         meta = json.load(open(mp))
